@@ -11,8 +11,10 @@ import (
 	"github.com/buildbarn/bb-storage/internal/verifstub"
 	"github.com/buildbarn/bb-storage/pkg/blobstore/buffer"
 	"github.com/buildbarn/bb-storage/pkg/blobstore/replication"
+	"github.com/buildbarn/bb-storage/pkg/blobstore/slicing"
 	"github.com/buildbarn/bb-storage/pkg/digest"
 
+	"golang.org/x/sync/semaphore"
 	"google.golang.org/grpc/codes"
 	"google.golang.org/grpc/status"
 )
@@ -31,7 +33,11 @@ type verifPair struct {
 }
 
 func verifNewPair(nObjects int, chooseRound bool) *verifPair {
-	p := &verifPair{objs: verifstub.UniverseWithEmpty("inst", nObjects)}
+	return verifNewPairOver(verifstub.UniverseWithEmpty("inst", nObjects), chooseRound)
+}
+
+func verifNewPairOver(objs []verifstub.Object, chooseRound bool) *verifPair {
+	p := &verifPair{objs: objs}
 	p.a = verifstub.NewModel("replica-a", p.objs)
 	p.b = verifstub.NewModel("replica-b", p.objs)
 	ba := NewMirroredBlobAccess(p.a, p.b,
@@ -111,6 +117,16 @@ func Verif_C11_M4_GetRefreshInProgress() {
 	verifGetOnce(ctx, p)
 }
 
+// Verif_C11_M6_GetActionCacheEntries: as M1, for message-backed buffers (what Action
+// Cache replicas return; their clone and background-task implementations differ
+// from the stream-backed ones).
+func Verif_C11_M6_GetActionCacheEntries() {
+	ctx := context.Background()
+	p := verifNewPairOver(verifstub.UniverseProto("inst", 2), true)
+	p.a.BufferKind, p.b.BufferKind = verifstub.KindProto, verifstub.KindProto
+	verifGetOnce(ctx, p)
+}
+
 func verifGetOnce(ctx context.Context, p *verifPair) {
 	k := vnd.Choose(len(p.objs))
 	d := p.objs[k].Digest
@@ -121,8 +137,18 @@ func verifGetOnce(ctx context.Context, p *verifPair) {
 	var data []byte
 	var err error
 	chunked, repairedAtEOF := false, false
-	if vnd.Choose(2) == 0 {
+	firstOp := "Get"
+	mode := vnd.Choose(3)
+	if p.a.BufferKind == verifstub.KindStreamWithTask || p.b.BufferKind == verifstub.KindStreamWithTask {
+		mode = vnd.Choose(2)
+	}
+	if mode == 0 {
 		data, err = p.ba.Get(ctx, d).ToByteSlice(100)
+	} else if mode == 2 {
+		// composite read (the child is the whole parent): same replica order, same repair
+		vnd.Cover("get-composite")
+		firstOp = "GetFromComposite"
+		data, err = p.ba.GetFromComposite(ctx, d, d, verifWholeSlicer{}).ToByteSlice(100)
 	} else {
 		// chunked consumption: the read is complete when Read reports io.EOF; the repair of
 		// the first replica must have finished by then
@@ -147,7 +173,7 @@ func verifGetOnce(ctx context.Context, p *verifPair) {
 	}
 
 	// The alternation advanced by exactly one.
-	vnd.Assert(len(first.Calls) >= 1 && first.Calls[0].Op == "Get", "the replica whose turn it is was not consulted first")
+	vnd.Assert(len(first.Calls) >= 1 && first.Calls[0].Op == firstOp, "the replica whose turn it is was not consulted first")
 
 	if err == nil {
 		vnd.Assert(string(data) == string(p.objs[k].Data), "Get succeeded with content other than the object's")
@@ -171,7 +197,13 @@ func verifGetOnce(ctx context.Context, p *verifPair) {
 	case !pS:
 		vnd.Cover("get-neither-holds")
 		vnd.Assert(err != nil, "Get succeeded although neither replica holds the object")
-		vnd.Assert(status.Code(err) == codes.NotFound, "object absent from both replicas is not reported as NOT_FOUND")
+		if mode == 2 && fP {
+			// a composite read repairs by copying the parent first: the failing repair
+			// write may be reported before the source is found to lack the object
+			vnd.Assert(status.Code(err) == codes.NotFound || status.Code(err) == codes.Unavailable, "object absent from both replicas reported neither as NOT_FOUND nor as the replica's failure")
+		} else {
+			vnd.Assert(status.Code(err) == codes.NotFound, "object absent from both replicas is not reported as NOT_FOUND")
+		}
 		vnd.Assert(first.PutOK == 0 && second.PutOK == 0, "something was stored although nothing was found")
 	case fP:
 		vnd.Cover("get-repair-write-fails")
@@ -462,4 +494,53 @@ func Verif_C11_M5_ChunkedReadRepairSchedules() {
 	r.Close()
 	vnd.Assert(string(data) == string(p.objs[0].Data), "Get returned content other than the object's")
 	vnd.Cover("repaired-at-eof")
+}
+
+
+// verifWholeSlicer designates the whole parent as the requested child.
+type verifWholeSlicer struct{}
+
+func (verifWholeSlicer) Slice(b buffer.Buffer, childDigest digest.Digest) (buffer.Buffer, []slicing.BlobSlice) {
+	return b, nil
+}
+
+
+// Verif_C11_M7_LossyRepairIsNotNotFound: the mirrored pair over the
+// copy-then-read-back replicator strategies (concurrency-limiting, deduplicating):
+// the object is held by the replica consulted second only, and the replica consulted
+// first acknowledges the repair write without holding the object afterwards (an
+// evicting or just-rotated store). The read then fails - but never with NOT_FOUND,
+// because a replica does hold the object.
+func Verif_C11_M7_LossyRepairIsNotNotFound() {
+	ctx := context.Background()
+	objs := verifstub.Universe("inst", 1)
+	a := verifstub.NewReliableModel("replica-a", objs)
+	b := verifstub.NewReliableModel("replica-b", objs)
+	mk := func(src, dst *verifstub.Model) replication.BlobReplicator {
+		base := replication.NewLocalBlobReplicator(src, dst)
+		if vnd.Choose(2) == 1 {
+			vnd.Cover("m7-deduplicating")
+			return replication.NewDeduplicatingBlobReplicator(base, dst, digest.KeyWithoutInstance)
+		}
+		vnd.Cover("m7-limiting")
+		return replication.NewConcurrencyLimitingBlobReplicator(base, dst, semaphore.NewWeighted(1))
+	}
+	ba := NewMirroredBlobAccess(a, b, mk(a, b), mk(b, a)).(*mirroredBlobAccess)
+	first, second := a, b
+	if vnd.Choose(2) == 1 {
+		ba.round.Store(1)
+		first, second = b, a
+	}
+	first.Present[0], second.Present[0] = false, true
+	first.LosePut = vnd.Choose(2) == 1
+	data, err := ba.Get(ctx, objs[0].Digest).ToByteSlice(100)
+	if first.LosePut {
+		vnd.Cover("m7-repair-lost")
+		vnd.Assert(err != nil, "the read succeeded although the replica consulted first does not hold the object after the repair")
+		vnd.Assert(status.Code(err) != codes.NotFound, "an object held by one replica was reported as NOT_FOUND because the other replica lost the repair write")
+	} else {
+		vnd.Cover("m7-repaired")
+		vnd.Assert(err == nil && string(data) == string(objs[0].Data), "read-through repair through a copy-then-read-back replicator failed although nothing fails")
+		vnd.Assert(first.Present[0], "after a successful read-through the replica consulted first still lacks the object")
+	}
 }
